@@ -7,6 +7,7 @@ R12.2 closing the chain (exact identity, sympy): with Rcrit = 2 f gamma / dG_v (
 R12.3 the binary lookup uses the same Gibbs-Thomson function for its interfacial-composition query (call-site agreement)
 R12.4 quantity kinds: an aspect ratio is passed to description-level shape functions, a radius to ShapeFactor-level ones
 R12.5 cached precipitate samples used by the sampling driving force are reused only at an equal temperature (C09 R9.4)
+R12.6 interfacial compositions of an array of conditions: batched only for a uniform temperature, point results in input order (C09 R9.6)
 """
 from __future__ import annotations
 import ast
@@ -223,3 +224,9 @@ def check(repo, ctx, index, purity):
         if 'sample' in fnd.what:
             fnd.rule = 'R12.5/' + fnd.rule
             ctx.findings.append(fnd)
+    # R12.6: the phase boundary returned for the i-th (T, gExtra) pair is the one computed for that pair (C09 R9.6)
+    sub = type(ctx)(ctx.prop, ctx.repo, ctx.tier, ctx.seed)
+    C09.r96(repo, sub)
+    for fnd in sub.findings:
+        fnd.rule = 'R12.6/' + fnd.rule
+        ctx.findings.append(fnd)
